@@ -683,3 +683,33 @@ def norm_path(e, env=None):
             return n
     e = T().visit(e)
     return U(e).replace(" ", "")
+
+
+def canon_eq(e):
+    """a copy of the expression in which the two operands of every single `==` / `!=` are in textual order and every `>` / `>=` is written
+    as `<` / `<=` with the operands exchanged (call-free operands only): one spelling for the same comparison"""
+    import copy as _copy
+
+    def plain(x):
+        return not any(isinstance(y, (ast.Call, ast.Await, ast.Yield, ast.YieldFrom, ast.NamedExpr, ast.Lambda)) for y in ast.walk(x))
+
+    class T(ast.NodeTransformer):
+        def visit_Compare(self, n):
+            self.generic_visit(n)
+            if len(n.ops) == 1 and plain(n.left) and plain(n.comparators[0]):
+                l, r = n.left, n.comparators[0]
+                if isinstance(n.ops[0], (ast.Eq, ast.NotEq)) and ast.unparse(l) > ast.unparse(r):
+                    return ast.copy_location(ast.Compare(left=r, ops=n.ops, comparators=[l]), n)
+                if isinstance(n.ops[0], ast.Gt):
+                    return ast.copy_location(ast.Compare(left=r, ops=[ast.Lt()], comparators=[l]), n)
+                if isinstance(n.ops[0], ast.GtE):
+                    return ast.copy_location(ast.Compare(left=r, ops=[ast.LtE()], comparators=[l]), n)
+            return n
+    return ast.fix_missing_locations(T().visit(_copy.deepcopy(e)))
+
+
+def UC(e):
+    """comparison-canonical text of an expression (or of source text): see canon_eq; whitespace removed"""
+    if isinstance(e, str):
+        e = ast.parse(e, mode="eval").body
+    return ast.unparse(canon_eq(e)).replace(" ", "")
